@@ -254,8 +254,9 @@ def replay_cmd(payload):
     /repo and prints the observations."""
     blob = json.dumps(payload)
     assert "'" not in blob
-    return ("cd /verif/harness && PYTHONPATH=/verif/harness:/repo /venv/bin/python -B -c "
-            "'import sys, repr_impl as r; r.show(sys.argv[1])' '%s'" % blob)
+    return ("cd %s/harness && VERIF_REPO=%s PYTHONPATH=%s/harness:%s /venv/bin/python -B -c "
+            "'import sys, repr_impl as r; r.show(sys.argv[1])' '%s'"
+            % (common.VERIF, common.REPO, common.VERIF, common.REPO, blob))
 
 
 def show(text):
